@@ -289,6 +289,7 @@ func observe(r metadata.Reader, comp *interner, probes []int64, readData bool, p
 			}
 			if strings.HasPrefix(sum, "error") {
 				v.PreErrors++
+				problem("ReadAt through OpenFileWithPreReader fails for %v: %s", n.Path, sum)
 			} else if n.Data != "" && sum != n.Data {
 				problem("ReadAt through OpenFileWithPreReader differs from OpenFile for %v", n.Path)
 			}
